@@ -13,7 +13,7 @@ from concurrent.futures import ThreadPoolExecutor
 from . import cxxast, lower
 
 VERIF = cxxast.VERIF
-BUILD = os.path.join(VERIF, 'build')
+BUILD = os.environ.get('VERIF_BUILD', os.path.join(VERIF, 'build'))
 
 class Undecided(Exception):
     pass
